@@ -47,7 +47,7 @@ CHECKS = {
         design="2/C07"),
     "C13": dict(level="exploration", engine="hcore+hcrypto+hbinance",
         technique="runtime monitoring: completion + exactly-once totality oracle on scripted full-stack sessions whose identifiers are drawn along the byte boundaries of the 16-bit range (all pairs/triples in thorough), rounds 0..127, loud and silent mode",
-        text="Sessions of size 2 and 3 (3 makes acknowledgements matter) with node = party identifiers from {0,1,2,127,128,254,255,256,257,511,512,513,32767,32768,65279,65280,65534,65535} and PRNG identifiers elsewhere; key generation then signing with two rounds cycling through 0..127; every session must complete and hand every message over exactly once, i.e. every identifier, view, round and digest one party encoded was decoded to the same value by its peers.",
+        text="Sessions of size 2 and 3 (3 makes acknowledgements matter) with node = party identifiers from {0,1,2,127,128,254,255,256,257,511,512,513,32767,32768,65279,65280,65534,65535} and PRNG identifiers elsewhere; key generation then signing with two rounds cycling through 0..127; every session must complete and hand every message over exactly once, i.e. every identifier, view, round and digest one party encoded was decoded to the same value by its peers. Disc-only sessions of 32 members tile the whole 16-bit range (thorough: all 2048 tiles, every identifier value takes part once).",
         note="Trusted: harness recorder/network. BLS/PS/EdDSA key generations with boundary and PRNG 16-bit party identifiers are followed by signing/verifying with objects re-created ONLY from the serialised stored data / ThresholdPK() bytes (units c13crypto, c13adapters). Identifier 0 is not used with the tss-lib adapters (the party key is the Shamir evaluation point).",
         design="2/C13"),
     "C01": dict(level="exploration", engine="hcrypto",
@@ -72,7 +72,7 @@ CHECKS = {
         design="2/C09"),
     "C11": dict(level="fault_enumeration", engine="hcore+hcrypto",
         technique="crash-point enumeration with an outcome oracle: every peer muted after its k-th transmission, every single transmission withheld, context cancelled at quiescence (logical time), by deadline with PRNG phase, or INSIDE a party's k-th send call; every call must return (error, or nil only with a complete/consistent session) within a watchdog, never panic",
-        text="Scripted backend through real schemes (barrier, silent, loud with real disc.Member; KeyGen and Sign; unusable stored data) and directly wired BLS/PS key generations. A hang is replayed alone with a 5x watchdog before it is reported.",
+        text="Scripted backend through real schemes (barrier, silent, loud with real disc.Member; KeyGen and Sign; unusable stored data), directly wired BLS/PS key generations, and BLS/PS key generation through real Loud/Silent schemes with one node silent after its k-th transmission under a deadline (a panic in a background goroutine after KeyGen returned kills the child and is reported by the parent). A hang is replayed alone with a 5x watchdog before it is reported.",
         note="Goroutine leaks that never surface as a blocked caller are not detected. tss-lib adapters with short deadlines are added by the hbinance driver when built.",
         design="2/C11"),
     "C18": dict(level="exploration", engine="hcrypto",
